@@ -21,6 +21,7 @@
   `nbytes < 2^31` for murmur (`int` arithmetic: `nblocks * 4`, `i * 4`, `nblocks * 16`).
 -/
 import QlibcModel.Hash.MD5
+import QlibcModel.Shapes.Hash
 
 namespace Qlibc.Props.C18
 open Qlibc Qlibc.Hash Qlibc.Generated
